@@ -3,6 +3,7 @@ import ClaripyProofs.Lemmas.Solver.Extrema
 import ClaripyProofs.Lemmas.Solver.CompositeHistory
 import ClaripyProofs.Lemmas.Solver.CompositeQuery
 import ClaripyProofs.Lemmas.Solver.CompositeQueries
+import ClaripyProofs.Lemmas.Solver.CompositeReabsorb
 /-!
 # C12 — SolverComposite answers like a monolithic solver
 
@@ -263,6 +264,19 @@ example : ∀ a, sCx.sem a = sCxy.sem a := fun _ => rfl
 theorem C12_simplify_breaks_partition :
     childrenOverlap (stateAfter sEnv {} [.add [sCxy], .add [sCz], .simplify, .add [sLink]]) = true ∧
     childrenOverlap (stateAfter sEnv {} [.add [sCxy], .add [sCz], .add [sLink]]) = false := by decide +kernel
+
+/-- towards `_reabsorb_solver`, case `len(parts) == len(old)`: **a model that `update` hands to an old child is a model of that
+child's constraints** — it is the restriction to the part's variables of a model `m` of all the merged constraints `Um` (which imply
+the child's `Ut`), and `update` accepts it only when its key set is the child's variable set, so it agrees with `m` wherever `Ut`
+looks.  No assumption on how the parts relate to the old children ("every child is connected" is not needed). -/
+theorem C12_update_accepts_valid (dflt : Var → Nat) {Um Ut : List Con} (hwf : ∀ c ∈ Ut, ConWf c) (tvars pvars : List Var)
+    (hvars : ∀ v ∈ varsOf Ut, v ∈ tvars) (himp : ∀ a, Models Um a → Models Ut a) (m : PModel)
+    (hm : Models Um (m.complete dflt)) (hacc : sameSet (modelKeys (m.restrict pvars)) tvars = true) :
+    Models Ut ((m.restrict pvars).complete dflt) :=
+  update_accepts_valid dflt hwf tvars pvars hvars himp m hm hacc
+
+/-- non-vacuity: the model `{x: 5, y: 7}` of `[x == 5, y-tautology]`, the part `{x}`, the child `x == 5` over `{x}` -/
+example : sameSet (modelKeys (PModel.restrict [(0, 5), (1, 7)] [0])) [0] = true := by decide
 
 /-! ### `_reabsorb_solver` does NOT re-establish `CInv` as it is stated (the invariant is too strong on a record nobody uses)
 
